@@ -11,6 +11,7 @@ import sys
 import crashlib as cl
 
 PY = sys.executable
+STEP_TIMEOUT = 90      # seconds a process may take between two reports before it counts as blocked
 
 
 class Proc:
@@ -23,7 +24,8 @@ class Proc:
                                   stdout=subprocess.DEVNULL, stderr=subprocess.PIPE)
         os.close(w_out)
         os.close(r_in)
-        self.rd = os.fdopen(r_out, 'r', buffering=1)
+        self.rfd = r_out
+        self.buf = b''
         self.wr = os.fdopen(w_in, 'w', buffering=1)
         self.at = None        # the call it is waiting to perform
         self.result = None
@@ -31,7 +33,11 @@ class Proc:
 
     def advance(self):
         """read the next report: a gate or the final result"""
-        ln = self.rd.readline()
+        ln = self._readline()
+        if ln == 'HANG':
+            self.finished = True
+            self.result = {'ok': False, 'error': 'no report from the process for %d s at %r (blocked?)' % (STEP_TIMEOUT, self.at)}
+            return
         if not ln:
             self.finished = True
             err = ''
@@ -49,17 +55,33 @@ class Proc:
             self.result = m['done']
             self.at = None
 
+    def _readline(self):
+        import select
+        while b'\n' not in self.buf:
+            r, _, _ = select.select([self.rfd], [], [], STEP_TIMEOUT)
+            if not r:
+                return 'HANG'
+            chunk = os.read(self.rfd, 65536)
+            if not chunk:
+                return ''
+            self.buf += chunk
+        ln, _, self.buf = self.buf.partition(b'\n')
+        return ln.decode() + '\n'
+
     def go(self):
         self.wr.write('go\n')
         self.wr.flush()
         self.advance()
 
     def close(self):
-        for f in (self.rd, self.wr):
-            try:
-                f.close()
-            except Exception:
-                pass
+        try:
+            self.wr.close()
+        except Exception:
+            pass
+        try:
+            os.close(self.rfd)
+        except Exception:
+            pass
         try:
             self.p.kill()
         except Exception:
